@@ -21,20 +21,21 @@ import (
 )
 
 // HasRecord goes over existing records in all sections and checks wether or not
-// it exists in the message payload.
+// it exists in the message payload. Names are compared case-insensitively: the
+// owner of an answer is spelled the way the client asked.
 func HasRecord(msg *dns.Msg, record string, qtype uint16) bool {
 	for _, a := range msg.Answer {
-		if a.Header().Rrtype == qtype && a.Header().Name == record {
+		if a.Header().Rrtype == qtype && strings.EqualFold(a.Header().Name, record) {
 			return true
 		}
 	}
 	for _, a := range msg.Ns {
-		if a.Header().Rrtype == qtype && a.Header().Name == record {
+		if a.Header().Rrtype == qtype && strings.EqualFold(a.Header().Name, record) {
 			return true
 		}
 	}
 	for _, a := range msg.Extra {
-		if a.Header().Rrtype == qtype && a.Header().Name == record {
+		if a.Header().Rrtype == qtype && strings.EqualFold(a.Header().Name, record) {
 			return true
 		}
 	}
